@@ -87,6 +87,20 @@ CHECKS = [
         "text": "Named containers are driven with generated subsets of named values (binding, defaults, unknown-name and wrong-shape rejection); every generated definition is compared with a twin whose symbols and readings are renamed to fresh adversarially-sorting identifiers, re-declared in another order and container, requiring identical named outputs from the Python filter and from the compiled generated C++. Exploration; C++ twins sampled.",
         "note": "Twins compared with each other at rounding-level tolerance; identifier-safe target names; sensor keys are not renamed.",
     },
+    {
+        "property_id": "C14",
+        "category": "fault_enumeration",
+        "technique": "fault injection over generated valid definitions: every single structural fault of 17+ classes at every applicable position (enumerated) and generated fault pairs, against all five definition/compile entry points",
+        "text": "For each generated valid definition: all five entry points must accept it (C++ ones must write files); then each listed structural fault is injected alone at every position where it applies (plus generated pairs) and ui.Model or every compile entry point the fault is visible to must raise, return nothing and leave no header/source. Fault positions are enumerated completely per base definition; base definitions are explored.",
+        "note": "'Refused' means any exception; each fault is constructed to be the only structural problem of the definition; small base definitions (<=3 states, <=2 sensors).",
+    },
+    {
+        "property_id": "C15",
+        "cpp": True,
+        "technique": "metamorphic property-based testing across processes: generated definitions and re-declared variants generated in child interpreters under different PYTHONHASHSEED values, comparing sha256 of header/source and the Python layout",
+        "text": "Batches of generated definitions and their re-declared variants (permuted order, set<->list, reversed dict insertion) are generated by child interpreters with different hash seeds; all header/source hashes and Python layouts of a definition must be identical across seeds, variants and repeated generation. The run measures that the raw set iteration order really differed between children. Exploration; hash seeds sampled.",
+        "note": "4 (quick) / 24 (thorough) hash seeds; a leak that needs one specific seed can be missed.",
+    },
 ]
 
 _PENDING = "check not built yet in this revision of /verif (planned in DESIGN.md section 6)"
